@@ -105,6 +105,16 @@ func NestedLiteral(l *mon.Log) Iter[int] {
 	return nil
 }
 
+// PanicAt delegates d levels deep and panics at the bottom (the consumer recovers).
+func PanicAt(l *mon.Log, d int) Iter[int] {
+	if d == 0 {
+		Yield(l.V(1, 0))
+		panic("bottom")
+	}
+	YieldFrom(PanicAt(l, d-1))
+	return nil
+}
+
 // Chain delegates to a fresh instance of itself (recursive delegation).
 func Chain(l *mon.Log, d int) Iter[int] {
 	if d > 0 {
